@@ -7,7 +7,7 @@ status=0
 for d in seeded/*/; do
   id=$(basename $d); prop=$(python3 -c "import json;print(json.load(open('$d/meta.json'))['property'])")
   if ! git -C /repo apply $PWD/$d/patch.diff; then echo "$id: patch does not apply"; status=1; continue; fi
-  ./check $prop > $d/last_run.txt 2>&1; rc=$?
+  VERIF_SCRATCH_OUTPUT=1 ./check $prop > $d/last_run.txt 2>&1; rc=$?   # evidence/ is not touched
   git -C /repo checkout -- .
   n=$(grep -c '^VIOLATION' $d/last_run.txt)
   first=$(grep -m1 '^# failed' $d/last_run.txt | cut -c1-150)
